@@ -93,6 +93,55 @@ def build_error_lemma(L):
                   cex=lambda m: {"lines": ["eval #( : f 1 0 / ; f #)", "error"], "expect": [("no_panic",), ("error_col", 11)]})
 
 
+def tokloc_lemma(K, t, e):
+    """the real token_location for the token [t, e) of a text of K arbitrary characters (multi-byte, CR, LF, tabs)"""
+    from e2.strmodel import mk_text, Text
+    NL, CR = z3.BitVecVal(10, 32), z3.BitVecVal(13, 32)
+
+    def body(L):
+        txt, cons = mk_text("src", K)
+        sym = txt.sym
+        tok = Text(sym, t, e, "substr")
+        fname, _c = mk_text("fname", 1)
+        S = L.ex.summ
+        L.ex.overrides[r"(^|::)token_filename$"] = lambda ex_, st, fr, c, a: S.option("ArcStr", fname)
+        sources = L.sym("&[(arcstr::ArcStr, arcstr::ArcStr)]", "sources")
+        try:
+            outs = L.run("lex::token_location", [sources, Ref(Box(tok, name="tok"))], cons, {})
+        finally:
+            L.ex.overrides.pop(r"(^|::)token_filename$", None)
+        hx = lambda m: "".join(chr(m.eval(c, model_completion=True).as_long()) for c in sym.chars)
+
+        def cex(m):
+            text = hx(m)
+            a = len(text[:t].encode())
+            b = len(text[:e].encode())
+            return {"lines": ["tokloc %d %d %s" % (a, b, text.encode().hex())], "expect": [("tokloc_spec", a, text.encode().hex())]}
+        L.witness(outs, lambda o: o.kind == "return" and o.value.variant == "Some", "token_location answers")
+        isnl = lambda c: z3.Or(c == NL, c == CR)
+        for o in outs:
+            if o.kind != "return":
+                L.fail(o, "token_location must not panic (%s)" % (o.msg or "")[:80], cex=cex)
+                continue
+            if o.value.variant != "Some":
+                L.fail(o, "token_location answers for a token of a known source", cex=cex)
+                continue
+            loc = o.value.payload.fields[0]
+            line, col, wl, tk = loc.fields[0].t, loc.fields[1].t, loc.fields[3], loc.fields[4]
+            exp_line = z3.BitVecVal(0, 64)
+            for c in sym.chars[:t]:
+                exp_line = exp_line + z3.If(c == NL, z3.BitVecVal(1, 64), z3.BitVecVal(0, 64))
+            L.require(o, line == exp_line, "the line number counts the line feeds before the token", cex=cex)
+            if not L.require(o, z3.BoolVal(isinstance(wl, Text) and wl.sym.name == sym.name and wl.lo <= t <= wl.hi), "the quoted line is a piece of the source that contains the token start", cex=cex):
+                continue
+            L.require(o, z3.And(*[z3.Not(isnl(c)) for c in sym.chars[wl.lo:wl.hi]]) if wl.hi > wl.lo else z3.BoolVal(True), "the quoted line holds no line break", cex=cex)
+            L.require(o, isnl(sym.chars[wl.lo - 1]) if wl.lo > 0 else z3.BoolVal(True), "the quoted line starts right after a line break (or at the start)", cex=cex)
+            L.require(o, isnl(sym.chars[wl.hi]) if wl.hi < K else z3.BoolVal(True), "the quoted line ends at the next line break (or at the end)", cex=cex)
+            L.require(o, col == z3.BitVecVal(t - wl.lo, 64), "the column is the number of characters between the line start and the token", cex=cex)
+            L.require(o, z3.BoolVal(isinstance(tk, Text) and (tk.lo, tk.hi) == (t, e)), "the reported token is the token asked about", cex=cex)
+    return body
+
+
 def run(L, tier, only=None):
     L.ex.path_budget = 8000
     ops = [o for o in OPCODES if o != "Resolve"]
@@ -105,4 +154,10 @@ def run(L, tier, only=None):
         L.lemma("C17 code_emit alignment", code_emit_lemma)
     if not only or "build" in only:
         L.lemma("C17 build error keeps run-time location", build_error_lemma)
+    # line / column / quoted line: every text of K characters, every token start
+    shapes = [(1, 0, 1), (2, 1, 2), (3, 2, 3), (4, 3, 4), (4, 2, 3), (4, 4, 4), (5, 4, 5)] if tier == "quick" else \
+             [(K, t, min(t + 1, K)) for K in range(1, 7) for t in range(0, K + 1)]
+    for K, t, e in shapes:
+        if not only or "tokloc" in only:
+            L.lemma("C17 token_location, %d chars, token at char %d" % (K, t), tokloc_lemma(K, t, e))
     L.ex.path_budget = None
